@@ -3718,7 +3718,7 @@ func (c *BytecodeCompiler) optimiseIfNotEqual(jumpOp bytecode.OpCode, condition 
 				c.compileNodeWithResult(condition.Right)
 			}
 		}
-		if c.checker.IsSubtype(rightType, c.checker.StdInt()) {
+		if c.checker.IsSubtype(rightType, c.checker.StdInt()) && c.hasBuiltinComparison(leftType) {
 			return bytecode.JUMP_IF_IEQ, func() {
 				c.compileOperandsSwapped(condition.Left, condition.Right)
 			}
@@ -3745,7 +3745,7 @@ func (c *BytecodeCompiler) optimiseIfNotEqual(jumpOp bytecode.OpCode, condition 
 				c.compileNodeWithResult(condition.Right)
 			}
 		}
-		if c.checker.IsSubtype(rightType, c.checker.StdInt()) {
+		if c.checker.IsSubtype(rightType, c.checker.StdInt()) && c.hasBuiltinComparison(leftType) {
 			return bytecode.JUMP_UNLESS_IEQ, func() {
 				c.compileOperandsSwapped(condition.Left, condition.Right)
 			}
@@ -3779,7 +3779,7 @@ func (c *BytecodeCompiler) optimiseIfEqual(jumpOp bytecode.OpCode, condition *as
 				c.compileNodeWithResult(condition.Right)
 			}
 		}
-		if c.checker.IsSubtype(rightType, c.checker.StdInt()) {
+		if c.checker.IsSubtype(rightType, c.checker.StdInt()) && c.hasBuiltinComparison(leftType) {
 			return bytecode.JUMP_UNLESS_IEQ, func() {
 				c.compileOperandsSwapped(condition.Left, condition.Right)
 			}
@@ -3805,7 +3805,7 @@ func (c *BytecodeCompiler) optimiseIfEqual(jumpOp bytecode.OpCode, condition *as
 				c.compileNodeWithResult(condition.Right)
 			}
 		}
-		if c.checker.IsSubtype(rightType, c.checker.StdInt()) {
+		if c.checker.IsSubtype(rightType, c.checker.StdInt()) && c.hasBuiltinComparison(leftType) {
 			return bytecode.JUMP_IF_IEQ, func() {
 				c.compileOperandsSwapped(condition.Left, condition.Right)
 			}
@@ -3826,14 +3826,15 @@ func (c *BytecodeCompiler) optimiseIfGreater(jumpOp bytecode.OpCode, condition *
 				c.compileNodeWithResult(condition.Right)
 			}
 		}
-		if c.checker.IsSubtype(rightType, c.checker.StdInt()) {
+		if c.checker.IsSubtype(rightType, c.checker.StdInt()) && c.hasBuiltinComparison(leftType) {
 			return bytecode.JUMP_UNLESS_ILT, func() {
 				c.compileOperandsSwapped(condition.Left, condition.Right)
 			}
 		}
 	}
 	if jumpOp == bytecode.JUMP_IF {
-		if c.checker.IsSubtype(leftType, c.checker.StdInt()) {
+		// the jump tests the negated comparison, which is only the same without NaN
+		if c.checker.IsSubtype(leftType, c.checker.StdInt()) && c.checker.IsSubtype(rightType, c.checker.StdInt()) {
 			return bytecode.JUMP_UNLESS_ILE, func() {
 				c.compileNodeWithResult(condition.Left)
 				c.compileNodeWithResult(condition.Right)
@@ -3856,14 +3857,15 @@ func (c *BytecodeCompiler) optimiseIfGreaterEqual(jumpOp bytecode.OpCode, condit
 			}
 		}
 		// Reverse only when leftType is subtype of BuiltinComparable
-		if c.checker.IsSubtype(rightType, c.checker.StdInt()) {
+		if c.checker.IsSubtype(rightType, c.checker.StdInt()) && c.hasBuiltinComparison(leftType) {
 			return bytecode.JUMP_UNLESS_ILE, func() {
 				c.compileOperandsSwapped(condition.Left, condition.Right)
 			}
 		}
 	}
 	if jumpOp == bytecode.JUMP_IF {
-		if c.checker.IsSubtype(leftType, c.checker.StdInt()) {
+		// the jump tests the negated comparison, which is only the same without NaN
+		if c.checker.IsSubtype(leftType, c.checker.StdInt()) && c.checker.IsSubtype(rightType, c.checker.StdInt()) {
 			return bytecode.JUMP_UNLESS_ILT, func() {
 				c.compileNodeWithResult(condition.Left)
 				c.compileNodeWithResult(condition.Right)
@@ -3885,14 +3887,15 @@ func (c *BytecodeCompiler) optimiseIfLess(jumpOp bytecode.OpCode, condition *ast
 				c.compileNodeWithResult(condition.Right)
 			}
 		}
-		if c.checker.IsSubtype(rightType, c.checker.StdInt()) {
+		if c.checker.IsSubtype(rightType, c.checker.StdInt()) && c.hasBuiltinComparison(leftType) {
 			return bytecode.JUMP_UNLESS_IGT, func() {
 				c.compileOperandsSwapped(condition.Left, condition.Right)
 			}
 		}
 	}
 	if jumpOp == bytecode.JUMP_IF {
-		if c.checker.IsSubtype(leftType, c.checker.StdInt()) {
+		// the jump tests the negated comparison, which is only the same without NaN
+		if c.checker.IsSubtype(leftType, c.checker.StdInt()) && c.checker.IsSubtype(rightType, c.checker.StdInt()) {
 			return bytecode.JUMP_UNLESS_IGE, func() {
 				c.compileNodeWithResult(condition.Left)
 				c.compileNodeWithResult(condition.Right)
@@ -3914,14 +3917,15 @@ func (c *BytecodeCompiler) optimiseIfLessEqual(jumpOp bytecode.OpCode, condition
 				c.compileNodeWithResult(condition.Right)
 			}
 		}
-		if c.checker.IsSubtype(rightType, c.checker.StdInt()) {
+		if c.checker.IsSubtype(rightType, c.checker.StdInt()) && c.hasBuiltinComparison(leftType) {
 			return bytecode.JUMP_UNLESS_IGE, func() {
 				c.compileOperandsSwapped(condition.Left, condition.Right)
 			}
 		}
 	}
 	if jumpOp == bytecode.JUMP_IF {
-		if c.checker.IsSubtype(leftType, c.checker.StdInt()) {
+		// the jump tests the negated comparison, which is only the same without NaN
+		if c.checker.IsSubtype(leftType, c.checker.StdInt()) && c.checker.IsSubtype(rightType, c.checker.StdInt()) {
 			return bytecode.JUMP_UNLESS_IGT, func() {
 				c.compileNodeWithResult(condition.Left)
 				c.compileNodeWithResult(condition.Right)
@@ -3934,6 +3938,20 @@ func (c *BytecodeCompiler) optimiseIfLessEqual(jumpOp bytecode.OpCode, condition
 
 // Evaluate `left`, then `right`, and leave them on the stack in the opposite order,
 // for the comparison instructions that expect their `Int` operand first.
+// Whether the comparison operators of the type are the builtin ones of numbers (or nil),
+// only then a comparison can be replaced with the mirrored one on swapped operands.
+func (c *BytecodeCompiler) hasBuiltinComparison(typ types.Type) bool {
+	return c.checker.IsSubtype(
+		typ,
+		c.checker.NewNormalisedUnion(
+			c.checker.StdInt(),
+			c.checker.StdFloat(),
+			c.checker.StdBigFloat(),
+			types.Nil{},
+		),
+	)
+}
+
 func (c *BytecodeCompiler) compileOperandsSwapped(left, right ast.ExpressionNode) {
 	if !c.resolve(left).IsUndefined() || !c.resolve(right).IsUndefined() {
 		// a static value can be pushed first, nothing can observe the order
